@@ -2,12 +2,13 @@
 """
 Confirm a candidate property-breaking change and run the checks against it.
 
-  seedtest.py <dir with patch.diff + demo.py|demo.sh> [--checks C01,C09 | --all] [--tier quick] [--skip-confirm]
+  seedtest.py <dir with patch.diff + demo.py|demo.sh> [--checks C01,C09 | --all] [--tier quick] [--skip-confirm] [--in-repo]
 
 1. scratch worktree of /repo (outside /repo and /verif): apply the patch, the 37 baseline tests must pass, the demo
-   must fail; without the patch the demo must pass; the worktree is removed.
-2. apply the patch to /repo itself, run the selected checks, ALWAYS undo (git checkout -- .).
-Writes <dir>/result.json.
+   must fail; without the patch the demo must pass.
+2. run the selected checks against the change: by default in the scratch worktree (VFW_REPO=<worktree>, so several seeds can
+   be examined in parallel); with --in-repo the patch is applied to /repo itself and ALWAYS undone (git checkout -- .).
+The worktree is removed at the end.  Writes <dir>/result.json.
 """
 import argparse
 import json
@@ -22,11 +23,20 @@ ap.add_argument("--checks", default="")
 ap.add_argument("--all", action="store_true")
 ap.add_argument("--tier", default="quick")
 ap.add_argument("--skip-confirm", action="store_true")
+ap.add_argument("--in-repo", action="store_true")
+ap.add_argument("--jobs", default="")
 args = ap.parse_args()
 d = os.path.abspath(args.dir)
 patch = os.path.join(d, "patch.diff")
 demo = os.path.join(d, "demo.py") if os.path.exists(os.path.join(d, "demo.py")) else os.path.join(d, "demo.sh")
 res = {"dir": d, "confirm": None, "checks": {}}
+if os.path.exists(os.path.join(d, "result.json")):
+    try:
+        old = json.load(open(os.path.join(d, "result.json")))
+        res["confirm"] = old.get("confirm")
+        res["checks"] = old.get("checks", {})
+    except ValueError:
+        pass
 
 
 def sh(cmd, **kw):
@@ -43,27 +53,42 @@ def run_demo(repo):
         return "timeout", ""
 
 
-if not args.skip_confirm:
-    wt = "/tmp/seedwt-%d" % os.getpid()
-    sh(["git", "-C", "/repo", "worktree", "add", "-q", "--detach", wt, "HEAD"])
-    try:
-        a = sh(["git", "-C", wt, "apply", patch])
-        if a.returncode != 0:
-            res["confirm"] = {"ok": False, "why": "patch does not apply to /repo HEAD: " + a.stderr[-300:]}
-        else:
-            b = sh(["/venv/bin/python", "/tmp/mut/baseline.py", wt]) if os.path.exists("/tmp/mut/baseline.py") else None
-            base_ok = b is not None and "37/37" in b.stdout
-            rc_with, out_with = run_demo(wt)
-            sh(["git", "-C", wt, "checkout", "--", "."])
-            rc_without, out_without = run_demo(wt)
-            res["confirm"] = {"ok": bool(base_ok and rc_with not in (0,) and rc_without == 0), "baseline": b.stdout.strip() if b else None,
-                              "demo_with_change": rc_with, "demo_without_change": rc_without, "demo_output_with": out_with[-300:]}
-    finally:
-        sh(["git", "-C", "/repo", "worktree", "remove", "--force", wt])
-    print("confirm:", json.dumps(res["confirm"])[:600])
+def run_checks(checks, env):
+    for c in checks:
+        t0 = time.time()
+        cmd = ["./check", c, "--tier", args.tier, "--no-evidence"] + (["--jobs", args.jobs] if args.jobs else [])
+        p = sh(cmd, cwd="/verif", env=env)
+        viol = [l for l in p.stdout.splitlines() if l.startswith("VIOLATION") or l.startswith("HARNESS") or l.startswith("KNOWN")]
+        detail = [l.strip()[:300] for l in p.stdout.splitlines() if l.startswith("  ") and "[" in l][:4]
+        res["checks"][c] = {"exit": p.returncode, "lines": viol[:6], "detail": detail, "wall": round(time.time() - t0, 1), "tier": args.tier}
+        print("%s exit=%d %.0fs %s" % (c, p.returncode, time.time() - t0, (detail[0] if detail else (viol[0] if viol else ""))[:220]), flush=True)
+
 
 checks = ["C%02d" % i for i in range(1, 21)] if args.all else [c for c in args.checks.split(",") if c]
-if checks:
+wt = "/tmp/seedwt-%d" % os.getpid()
+sh(["git", "-C", "/repo", "worktree", "add", "-q", "--detach", wt, "HEAD"])
+try:
+    a = sh(["git", "-C", wt, "apply", patch])
+    if a.returncode != 0:
+        res["confirm"] = {"ok": False, "why": "patch does not apply to /repo HEAD: " + a.stderr[-300:]}
+        print(res["confirm"])
+        sys.exit(2)
+    if not args.skip_confirm:
+        b = sh(["/venv/bin/python", "/tmp/mut/baseline.py", wt])
+        base_ok = "37/37" in b.stdout
+        rc_with, out_with = run_demo(wt)
+        sh(["git", "-C", wt, "checkout", "--", "."])
+        rc_without, out_without = run_demo(wt)
+        sh(["git", "-C", wt, "apply", patch])
+        res["confirm"] = {"ok": bool(base_ok and rc_with not in (0,) and rc_without == 0), "baseline": b.stdout.strip(),
+                          "demo_with_change": rc_with, "demo_without_change": rc_without, "demo_output_with": out_with[-300:]}
+        print("confirm:", json.dumps(res["confirm"])[:500], flush=True)
+    if checks and not args.in_repo:
+        run_checks(checks, dict(os.environ, VFW_REPO=wt))
+finally:
+    sh(["git", "-C", "/repo", "worktree", "remove", "--force", wt])
+
+if checks and args.in_repo:
     st = sh(["git", "-C", "/repo", "status", "--porcelain"]).stdout.strip()
     if st:
         print("refusing: /repo has uncommitted changes:\n" + st)
@@ -73,13 +98,7 @@ if checks:
         print("patch does not apply to /repo:", a.stderr)
         sys.exit(2)
     try:
-        for c in checks:
-            t0 = time.time()
-            p = sh(["./check", c, "--tier", args.tier, "--no-evidence"], cwd="/verif")
-            viol = [l for l in p.stdout.splitlines() if l.startswith("VIOLATION") or l.startswith("HARNESS") or l.startswith("KNOWN")]
-            detail = [l.strip()[:260] for l in p.stdout.splitlines() if l.startswith("  ") and "[" in l][:4]
-            res["checks"][c] = {"exit": p.returncode, "lines": viol[:6], "detail": detail, "wall": round(time.time() - t0, 1)}
-            print("%s exit=%d %.0fs %s" % (c, p.returncode, time.time() - t0, (detail[0] if detail else (viol[0] if viol else ""))[:200]))
+        run_checks(checks, dict(os.environ))
     finally:
         sh(["git", "-C", "/repo", "checkout", "--", "."])
         sh(["git", "-C", "/repo", "clean", "-fdq", "src"])
